@@ -54,7 +54,9 @@ def gap_D(run, ell_maxes, rotors, per_ell, deep=False):
                 run.violation("D-raised", "Wigner.D", {"ell_max": L, "R": list(R), **band_info(R)}, "values", repr(e))
                 continue
             # the same request through an explicit (fresh, then recycled) workspace must give the same matrix
-            for wsname, ws in (("fresh", w.new_workspace()), ("recycled", getattr(w, "_verif_ws", None))):
+            dirty = w.new_workspace()
+            dirty[:] = float("nan")      # arbitrary previous content (np.empty garbage may be NaN): every cell read must have been written by this call
+            for wsname, ws in (("fresh", w.new_workspace()), ("recycled", getattr(w, "_verif_ws", None)), ("nan-filled", dirty if L <= 64 else None)):
                 if ws is None:
                     continue
                 D2 = w.D(quaternionic.array(R), workspace=ws)
